@@ -39,6 +39,7 @@ class World(object):
         self.spec = spec
         self.root = root
         self.version = {}
+        self.broken = {}               # mid -> the file on disk has a syntax error
         self.used = {}                 # mid -> set of mtimes this file ever had
         self.mtime = {}                # mid -> current mtime
         for mid in spec['order']:
@@ -47,7 +48,7 @@ class World(object):
                 os.mkdir(os.path.join(root, G.stem(spec, mid)))
         for mid in spec['order']:
             if spec['modules'][mid]['present']:
-                self.write(mid, 0, 'f')
+                self.write(mid, 0, 'f', bool(spec['modules'][mid].get('broken')))
 
     def path(self, mid):
         return os.path.join(self.root, G.relpath(self.spec, mid))
@@ -65,14 +66,15 @@ class World(object):
         self.mtime[mid] = t
         os.utime(self.path(mid), (t, t))
 
-    def write(self, mid, version, direction):
+    def write(self, mid, version, direction, broken=False):
         with open(self.path(mid), 'w') as f:
-            f.write(G.render(self.spec, mid, version))
+            f.write(G.render(self.spec, mid, version, broken))
         self.version[mid] = version
+        self.broken[mid] = broken
         self.stamp(mid, direction)
 
     def text(self, mid):
-        return G.render(self.spec, mid, self.version[mid])
+        return G.render(self.spec, mid, self.version[mid], self.broken.get(mid, False))
 
     def apply(self, op):
         """returns the effective operation kind ('create', 'rewrite-fwd', 'rewrite-back', 'touch-fwd',
@@ -91,6 +93,12 @@ class World(object):
             if not here:
                 return None
             self.write(mid, self.version[mid] + 1, direction)
+        elif kind == 'break':
+            # saved with a syntax error (created that way if it did not exist)
+            if not here:
+                self.write(mid, 0, 'f', True)
+                return 'create-broken'
+            self.write(mid, self.version[mid] + 1, direction, True)
         elif kind == 'touch':
             if not here:
                 return None
@@ -181,6 +189,8 @@ def timeline(spec, hist, upto):
         here = mid in st['present']
         if kind == 'put':
             kind = 'rewrite' if here else 'create'
+        if kind == 'break':
+            kind = 'rewrite' if here else 'create'
         if kind == 'create' and not here:
             st['present'].add(mid)
             st['created_at'][mid] = i
@@ -199,10 +209,12 @@ def timeline(spec, hist, upto):
     return st
 
 
-def classify(spec, hist, i, a_long, a_fresh, differs_forward_only=None):
+def classify(spec, hist, i, a_long, a_fresh, rerun=None, failed_reqs=()):
     """(mechanism label, info) for a mismatch at request hist[i].
-    differs_forward_only: None, or a function () -> bool that re-runs the same history with every mtime
-    moving forward and tells whether the two answers still differ at this request."""
+    rerun: None, or a function (history, index) -> bool that executes a variant of the history quietly and
+    tells whether the long-lived and the fresh answer differ at that request (counterfactuals: all mtimes
+    moving forward; the last failing request left out).
+    failed_reqs: indices of earlier requests that raised on the long-lived project."""
     probe = spec['probes'][hist[i][1]]
     F = probe['file']
     st = timeline(spec, hist, i)
@@ -260,6 +272,13 @@ def classify(spec, hist, i, a_long, a_fresh, differs_forward_only=None):
         if M == F:
             return 'stale-requested-file', False, {}
         created = M in st['created_at'] and any(r < st['created_at'][M] for r in st['reqs'])
+        if created and spec['modules'][M]['init']:
+            # the directory became a package after a request: relative imports of the files in it
+            rel = [x for x in spec['modules'] if x in dist and spec['modules'][x]['pkg'] == M and x != M
+                   and any(G.is_relative(spec, x, e) for e in spec['modules'][x]['edges'])]
+            if rel:
+                return ('package-init-created-relative-imports-stale-dist%d' % dist[M], True,
+                        {'files_with_relative_imports': sorted(rel)})
         paths = G.all_paths(spec, F, M)
         paths.sort(key=lambda p: (not consistent(p), len(p)))
         if created:
@@ -304,8 +323,22 @@ def classify(spec, hist, i, a_long, a_fresh, differs_forward_only=None):
     # difference at this request, the direction of the mtime change is what the cache got wrong; blame the
     # culprit if its latest modification was backward, else the nearest module that was ever moved backward
     backs = sorted((m for m in st['ever_back'] if m != F), key=lambda m: (dist.get(m, 99), m))
-    if backs and differs_forward_only is not None:
-        still = differs_forward_only()
+    # the failing requests directly before this one (no successful request in between)
+    ok_before = [r for r in st['reqs'] if r not in failed_reqs]
+    failed = [j for j in failed_reqs if j < i and (not ok_before or j > ok_before[-1])]
+    decided = False
+    if failed and rerun is not None:
+        # if the same history WITHOUT those failing requests gives no difference here, a failing request
+        # left something behind
+        j = failed[-1]
+        still = rerun([op for k, op in enumerate(hist[:i + 1]) if k not in failed], i - len(failed))
+        info['differs_without_the_failing_request_too'] = still
+        if not still:
+            label = 'stale-after-failed-request-dist%s' % dist.get(M, '?')
+            info['failing_request'] = G.op_code(hist[j]) + '@%d' % j
+            decided = True
+    if backs and rerun is not None and not decided:
+        still = rerun(G.forward_only(hist[:i + 1]), i)
         info['differs_with_forward_mtimes_too'] = still
         if not still:
             if not st['back'].get(M) or M == F:
@@ -347,6 +380,9 @@ def run_history(spec, hist, part, compare, key, seen_mechs, selfcheck=False):
         world = World(spec, root)
         longp = Project([root])
         first_req = None
+        failed_reqs = []              # indices of requests that raised on the long-lived project
+        pkg_created = False
+        last_mod = -1
         mods_since = []               # (mid, kind) effective modifications after the first request
         for i, op in enumerate(hist):
             if op[0] != 'req':
@@ -355,6 +391,12 @@ def run_history(spec, hist, part, compare, key, seen_mechs, selfcheck=False):
                     part.count('ops_without_effect')
                 else:
                     part.hist('modification_kind', kind)
+                    last_mod = i
+                    if kind == 'create' and spec['modules'][op[1]]['init']:
+                        part.count('package_inits_created')
+                        if not pkg_created:
+                            pkg_created = True
+                            part.count('histories_with_a_package_creation')
                     if kind == 'create' and spec['modules'][op[1]].get('shadow'):
                         part.count('submodules_created_over_a_package_attribute')
                     if kind.endswith('-back'):
@@ -367,6 +409,16 @@ def run_history(spec, hist, part, compare, key, seen_mechs, selfcheck=False):
             probe = spec['probes'][op[1]]
             a_long = ask(longp, world, probe)
             part.count('requests_issued_on_long_lived_project')
+            if failed_reqs and last_mod > failed_reqs[-1] and a_long[0] != 'exc':
+                part.count('requests_answered_after_a_failing_request_and_a_later_modification')
+            if pkg_created and spec['modules'][probe['file']]['pkg'] and a_long[0] != 'exc':
+                part.count('requests_on_a_file_inside_a_package_after_a_package_creation')
+            if a_long[0] == 'exc':
+                part.count('requests_raising_on_long_lived_project')
+                part.hist('exception_on_long_lived_project', a_long[1])
+                if not failed_reqs:
+                    part.count('histories_with_a_failing_request')
+                failed_reqs.append(i)
             was_first = first_req is None
             if was_first:
                 first_req = i
@@ -407,7 +459,7 @@ def run_history(spec, hist, part, compare, key, seen_mechs, selfcheck=False):
                 continue
             part.count('answers_differ')
             mech, info = classify(spec, hist, i, a_long, a_fresh,
-                                  lambda: differs_at(spec, G.forward_only(hist[:i + 1]), i))
+                                  lambda h2, i2: differs_at(spec, h2, i2), [j for j in failed_reqs if j < i])
             part.hist('mismatch_mechanism', mech)
             part.hist('mismatch_request_kind', '%s:%s' % (mech, probe['kind']))
             cap = 1 if compare == 'last' else 2
@@ -518,24 +570,27 @@ def dispatch(arg):
 
 # --------------------------------------------------------------------------------------
 
+CHAINS = ('S', 'R', 'X', 'P')
+
+
 def main(run):
     jobs = []
     enumerated = {}
     alphabets = {}
     maxlen = run.pick(4, 6)
     # budget: number of exhaustive histories the tier can afford (see evidence 'enumerated')
-    budget = run.pick(14000, 260000)
+    budget = run.pick(17000, 260000)
     complete = True
     used = 0
     spent = 0
     for length in range(1, maxlen + 1):
         level = {}
-        for variant in ('S', 'R'):
+        for variant in CHAINS:
             spec = G.chain_spec(variant, 'vx_')
             mods, reqs = G.chain_alphabet(variant, spec)
             level[variant] = (spec, mods, reqs, G.chain_count(mods, reqs, length))
         level_total = sum(v[3] for v in level.values())
-        for variant in ('S', 'R'):
+        for variant in CHAINS:
             spec, mods, reqs, total = level[variant]
             take = total
             if used + level_total > budget:
@@ -560,7 +615,7 @@ def main(run):
                 for s in range(0, total, per):
                     jobs.append(['chain', [variant, length, s, min(per, total - s), run.seed]])
         used = spent
-    nrand = run.pick(3000, 24000)
+    nrand = run.pick(2700, 24000)
     per = run.pick(25, 100)
     for s in range(0, nrand, per):
         jobs.append(['random', [run.seed, s, per, 40]])
@@ -575,14 +630,16 @@ def main(run):
             run.merge(r)
     full_to = 0
     for length in range(1, maxlen + 1):
-        if all(enumerated['chain%s_len%d' % (v, length)]['run'] == enumerated['chain%s_len%d' % (v, length)]['histories_ending_in_a_request'] for v in 'SR'):
+        if all(enumerated['chain%s_len%d' % (v, length)]['run'] == enumerated['chain%s_len%d' % (v, length)]['histories_ending_in_a_request'] for v in CHAINS):
             full_to = length
         else:
             break
     run.extra['enumerated'] = {
         'fixed_chains': 'S: m star-imports a (+ from a import K_c), a star-imports b, b re-exports K_c,c_s from the package c and star-imports d (absent at start); '
                         'R: m imports a (+ from a import b), a imports b, b re-exports from the package c and imports d (absent at start); in both, '
-                        's = c/K_c.py (absent at start) is a sub-module named like the class K_c defined in c/__init__.py',
+                        's = c/K_c.py (absent at start) is a sub-module named like the class K_c defined in c/__init__.py; '
+                        'X (error path): m imports a, a imports w, w is on disk with a syntax error (B = save with a syntax error, P = repair); '
+                        'P (package creation): directory p holds r (requested, relative imports only) and h but no __init__.py at the start (Pp creates it)',
         'alphabets (E=rewrite with new content+mtime, T=touch, P=create-or-rewrite, R=request; lower case in a history = mtime moved backward)': alphabets,
         'levels': enumerated,
         'complete_up_to_length': full_to,
@@ -600,7 +657,9 @@ def main(run):
              'module at import distance >= 1 from the requested file, and whose fresh-project answer mentions generated identifiers',
         require=('requests_compared', 'requests_nontrivial', 'answers_equal', 'fresh_vs_fresh_checks', 'histories_random',
                  'modifications_mtime_forward', 'modifications_mtime_backward',
-                 'submodules_created_over_a_package_attribute'),
+                 'submodules_created_over_a_package_attribute', 'histories_with_a_failing_request',
+                 'histories_with_a_package_creation', 'requests_answered_after_a_failing_request_and_a_later_modification',
+                 'requests_on_a_file_inside_a_package_after_a_package_creation', 'both_raise_same_type'),
         assumptions=[
             'oracle = Project([root]) created after the last write, asked the same request in the same process; its stability is '
             're-checked on every difference (and on a sample of agreements) by asking a third fresh project',
